@@ -186,7 +186,7 @@ class HBC(Harness):
         if cons:
             x0_calls = [c for c in cons_calls if c[0].shape[0] == 1]
             out.ob("accepted_x0_feasible", O.And(*[O.Not(a if cons == "bool" else O.gt(a, 0)) for _, ans in x0_calls for a in ans]))
-            out.ob("x0_feasibility_checked", len(x0_calls) == 1 and O.rows_eq(x0_calls[0][0][0], X0[0], 0.0))
+            out.ob("x0_feasibility_checked", len(x0_calls) >= 1 and O.Or(*[O.rows_eq(c_[0][0], X0[0], 0.0) for c_ in x0_calls]))
             for Xq, ans in cons_calls:
                 for r in range(Xq.shape[0]):
                     for d in range(D):
